@@ -96,9 +96,44 @@ AIRY_TOL = 5e-3          # focal-plane amplitude of an off-centre elliptical ape
 #                          (observed <= 2.6e-4: truncation of the image sum at |p|,|q| <= 2 and the 16x16 sub-pixel coverage)
 
 
+LONG_TOL = 1e-9          # 150 same-sign angularSpectrum steps against one step over the total (observed <= 9.9e-14 over 75 seeds)
+
+
 def sum_tol(n):
     """direct-sum identities: rounding of O(N²) terms with phases up to ~1e3-1e5 rad (observed <= 1e-12 for N<32, <= 1e-10 for N<=65)"""
     return 1e-9 if n < 32 else 1e-8
+
+
+def geometry_large(rng, n):
+    """(wvl, d1, z) for a large grid: |z| = c·N d1²/λ (the one-step output spacing is c·d1), c in {1/2, 1, 2, 4}: the quadratic phases stay
+    below ~π N/2 rad, so the direct sums are still accurate to ~1e-10 (c10.geometry's menus would give 1e6 rad at N = 256)"""
+    wvl = rng.choice([500e-9, 1.55e-6, 2.2e-6])
+    d1 = rng.choice([1e-3, 2.5e-3, 5e-3])
+    z = rng.choice([-1, 1]) * n * d1 * d1 / wvl * rng.choice([0.5, 1.0, 2.0, 4.0])
+    return float(wvl), float(d1), float(z)
+
+
+def exact_all(chk, op, n, Uin, U, wvl, d1, d2, z, rp, what):
+    """all four propagators against their direct sums for one double-precision (field, geometry); Uin is the caller's array (handed over as
+    it is, so that a history can re-use one object), U a pristine copy of its values; `what` says where in a history this call sits"""
+    tol = sum_tol(n)
+    dd = wvl * z / (n * d1)
+    odd = ":odd" if n % 2 else ""
+    with numpy.errstate(all="ignore"):
+        outs = (("fresnel-sum:oneStepFresnel", op.oneStepFresnel(Uin, wvl, d1, z), fresnel_sum(U, wvl, z, d1, grid(n, dd))),
+                ("fraunhofer-sum:lensAgainst", op.lensAgainst(Uin, wvl, d1, z), fraunhofer_sum(U, wvl, z, d1, grid(n, dd))),
+                ("spectrum-sum:angularSpectrum", op.angularSpectrum(Uin, wvl, d1, d2, z), spectrum_sum(U, wvl, d1, d2, z)),
+                ("fresnel-sum:twoStepFresnel", op.twoStepFresnel(Uin, wvl, d1, d2, z), two_stage(U, wvl, d1, d2, z, n)))
+    for key, out, ref in outs:
+        e = float(numpy.abs(out - ref).max()) / (float(numpy.abs(ref).max()) + 1e-300) if out.shape == ref.shape else float("nan")
+        c10.obs(chk, "history:%s[tol %g]" % (key.split(":")[0], tol), e)
+        if not e <= tol:
+            if key.endswith("twoStepFresnel") and out.shape == ref.shape and float(numpy.abs(out - reflect(ref)).max()) <= tol * float(numpy.abs(ref).max()):
+                key = "orientation:twoStepFresnel:point-reflected"
+            chk.fail(key + odd, "%s ≠ its direct sum, rel err %.3g, %s (N=%d wvl=%g d1=%g d2=%g z=%g)" % (key.split(":")[1], e, what, n, wvl, d1, d2, z),
+                     dict(rp, N=n, wvl=wvl, d1=d1, d2=d2, z=z, history=what))
+    if not numpy.array_equal(Uin, U):
+        chk.fail("inplace:caller-array" + odd, "the caller's input array was modified by a propagator call, %s (N=%d)" % (what, n), dict(rp, N=n, history=what))
 
 
 # --------------------------------------------------------------------------- oracle
@@ -114,20 +149,27 @@ def oracle(chk, quick):
 
     def quiet(f, *a):
         with numpy.errstate(all="ignore"):
-            return f(*a)
+            r = f(*a)
+        # complex128 on the unchanged tree; a propagator that hands back e.g. a bool / integer input unchanged must reach the comparisons
+        # below as numbers, not break them (bool arrays do not subtract)
+        return r.astype(complex) if isinstance(r, numpy.ndarray) and r.dtype.kind in "biuf" else r
 
     # ---- group laws of angularSpectrum (exact discrete identities)
     # the group laws are proved for every N >= 1 and the property does not restrict them to even grids: odd sizes included
-    sizes = [2, 3, 4, 5, 6, 8, 9, 16, 17, 32, 33] + ([] if quick else [7, 10, 12, 24, 63, 64, 65, 128])
+    # round 5: the single-sample grid, sizes with a large prime factor (13, 26 = 2·13, 37 …) and grids beyond 2^16 / 2^18 elements
+    sizes = [1, 2, 3, 4, 5, 6, 8, 9, 13, 16, 17, 26, 32, 33, 256, 512] + ([] if quick else [7, 10, 12, 24, 34, 37, 63, 64, 65, 128, 257, 260, 1024])
     reps = 3 if quick else 10
     for n in sizes:
-        for rep in range(reps):
+        for rep in range(reps if n < 200 else 1 if quick else 2):
             it += 1
-            wvl, d1, z = c10.geometry(rng, n)
+            wvl, d1, z = c10.geometry(rng, n) if n < 200 else geometry_large(rng, n)
             kind = rng.choice(["gauss", "dyadic", "delta", "blob"])
             cls = c10.FIELD_CLASSES[it % len(c10.FIELD_CLASSES)]
             Uin, U, c64 = c10.present_field(c10.rand_field(nprng, n, kind), cls)
-            m = rng.choice([0.5, 0.75, 1.5, 2.0, rng.uniform(0.4, 2.5)])
+            # return trip: the menu, a free value, and (round 5) magnifications next to 1 down to 1 ± 2^-30 (observed <= 5e-13) and, on small
+            # grids, a ten-fold demagnification (observed <= 1.8e-11 for N <= 33; m = 10 reaches 1.4e-9 by phase rounding alone: not used);
+            # whole class against TOL = 1e-9: <= 1.5e-11 over 100 quick seeds, 5.1e-11 in a thorough run
+            m = rng.choice([0.5, 0.75, 1.5, 2.0, rng.uniform(0.4, 2.5), 1.0 + rng.choice([-1, 1]) * 2.0 ** -rng.randint(9, 30)] + ([0.1] if n <= 17 else []))
             sc = c10.Scalars(rng, it, wvl, d1, m, z)
             (o_w, o_1, o_2, o_z), (wvl, d1, d2, z) = sc.obj, sc.val
             # a complex64 field is promoted to double precision by angularSpectrum's first product (observed: the laws hold to 6e-16
@@ -143,7 +185,7 @@ def oracle(chk, quick):
                 chk.count("group:scalar=%s" % kk)
             chk.case(("group", n, wvl, d1, z, kind, cls, sc.label()),
                      sample={"law": "as_add/as_neg/as_mag_inverse/program", "N": n, "wvl": wvl, "d1": d1, "z": z} if rep == 0 and n == 8 else None)
-            for z0 in (0.0, 0, numpy.float64(0.0), numpy.array(0.0), -0.0):
+            for z0 in (0.0, 0, numpy.float64(0.0), numpy.array(0.0), -0.0, numpy.float32(0.0), numpy.int64(0), numpy.int32(0), numpy.array(0)):
                 out0 = numpy.asarray(op.angularSpectrum(Uin, o_w, o_1, o_2, z0))
                 if out0.shape != U.shape or not numpy.array_equal(out0, U):
                     chk.fail("group:as_zero", "angularSpectrum(U, z=%r) ≠ U (N=%d)" % (z0, n), rp)
@@ -181,16 +223,30 @@ def oracle(chk, quick):
 
     # ---- each single-FFT propagator IS the centred Fresnel / Fraunhofer sum, angularSpectrum IS the direct angular-spectrum sum
     # (kernel sign, scale, frequency grid, orientation); odd sizes included: every grid is centred on sample N//2
-    sizes = [2, 4, 5, 6, 7, 8, 16, 33] + ([] if quick else [3, 9, 10, 12, 32, 64, 65])
+    # round 5: N = 1, sizes with a large prime factor (13, 26, 37), one grid beyond 2^16 elements (thorough: beyond 2^18)
+    sizes = [1, 2, 4, 5, 6, 7, 8, 13, 16, 26, 33, 256] + ([] if quick else [3, 9, 10, 12, 32, 34, 37, 64, 65, 257, 260, 512])
+    ci = rng.randint(0, 16)                                   # rotation of the field classes: its own counter (`it` advances by 6 per case here)
     for n in sizes:
-        for rep in range(reps):
+        for rep in range(reps if n < 200 else 1):
             it += 1
-            wvl, d1, z = c10.geometry(rng, n)
+            ci += 1
+            wvl, d1, z = c10.geometry(rng, n) if n < 200 else geometry_large(rng, n)
+            if rep % 3 == 2 or n >= 200:
+                # round 5: the same problem in other units of length (µm … 1000 km): all phases — hence the accuracy of the direct sums — are
+                # unchanged, every length-valued parameter moves by up to 12 decades (absolute thresholds on z, wvl or the spacings show up).
+                # Spacings stay >= 0.5 µm: below, the library's own +1e-10 m² in r1sq swamps r1sq itself (a constant phase of 1e5..1e9 rad at
+                # m != 1, whose rounding alone reached 2.4e-7 at d1 = 1 nm when this was tried) — a quirk of the code kept in the model
+                unit = rng.choice([u for u in (1e-6, 1e-3, 1e3, 1e6) if d1 * u >= 5e-7])
+                wvl, d1, z = wvl * unit, d1 * unit, z * unit
+                chk.count("sum:unit=%g" % unit)
             kind = rng.choice(["gauss", "delta", "blob", "dyadic"])
-            cls = c10.FIELD_CLASSES[it % len(c10.FIELD_CLASSES)]
+            cls = c10.FIELD_CLASSES[ci % len(c10.FIELD_CLASSES)]
             Uin, U, c64 = c10.present_field(c10.rand_field(nprng, n, kind), cls)
             kinds = [k_ if k_ != "f32" else "f64" for k_ in c10.Scalars(rng, it, wvl, d1, 1.0, z).kinds]   # these identities are checked to 1e-9: double precision only
-            tol = c10.C64_TOL if c64 else sum_tol(n)
+            # a single-precision field (complex64 / float32) is transformed in single precision by lensAgainst only; the other three promote
+            # it to double with their first product and are held to the double-precision bound (round 5; observed <= 1e-12)
+            tol_lens = c10.C64_TOL if c10.single("lens", c64) else sum_tol(n)
+            tol = sum_tol(n)
             chk.oracle_cases += 1
             chk.count("sum:N=%d" % n)
             chk.count("sum:z%s" % ("+" if z > 0 else "-"))
@@ -212,12 +268,14 @@ def oracle(chk, quick):
                             relerr(one, fresnel_sum(U, wvl, z, d1, (numpy.arange(n) - n / 2.0) * dd)), n, wvl, d1, z), rp)
             lens = quiet(op.lensAgainst, Uin, o_w, o_1, o_z)
             refl_ = fraunhofer_sum(U, wvl, z, d1, grid(n, dd))
-            e = c10.obs(chk, "fraunhofer-sum[tol %g]" % tol, relerr(lens, refl_))
-            if not e <= tol:
+            e = c10.obs(chk, "fraunhofer-sum[tol %g]" % tol_lens, relerr(lens, refl_))
+            if not e <= tol_lens:
                 chk.fail("fraunhofer-sum:lensAgainst" + (":odd" if n % 2 else ""),
                          "lensAgainst ≠ e^{iπ|x2|²/λf}/(iλf) Σ U e^{-2πi x1·x2/λf} d1²: rel err %.3g (transposed %.3g, reflected %.3g) (N=%d wvl=%g d1=%g f=%g)"
                          % (e, relerr(lens.T, refl_), relerr(reflect(lens), refl_), n, wvl, d1, z), rp)
-            for m in (rng.choice([0.5, 0.75, 1.5, 2.0]), 1.0, rng.uniform(0.4, 2.5), c10.near_unit(rng)):
+            deep = 1.0 + rng.choice([-1, 1]) * 2.0 ** -rng.randint(12, 30)      # round 5: AS only (the two-step intermediate plane z/(1-m) is then
+            #                                                                       1e4..1e9 |z| away: phase rounding, not a property of the code)
+            for m in (rng.choice([0.5, 0.75, 1.5, 2.0]), 1.0, rng.uniform(0.4, 2.5), c10.near_unit(rng), deep):
                 it += 1
                 scm = c10.Scalars(rng, it, wvl, d1, m, z, kinds)
                 (o_w, o_1, o_2, o_z), (wvl, d1, d2, z) = scm.obj, scm.val
@@ -232,6 +290,8 @@ def oracle(chk, quick):
                     chk.fail("spectrum-sum:angularSpectrum" + (":odd" if n % 2 else ""),
                              "angularSpectrum ≠ Q3·IDFT[e^{-iπλz|f|²/m}·DFT[Q1·U/m]] with f=(j-N//2)/(N d1): rel err %.3g; against the conjugate transfer "
                              "function %.3g (N=%d wvl=%g d1=%g d2=%g z=%g)" % (e, relerr(asp, spectrum_sum(U, wvl, d1, d2, -z) if d1 == d2 else refa), n, wvl, d1, d2, z), rpm)
+                if m is deep:
+                    continue
                 two = quiet(op.twoStepFresnel, Uin, o_w, o_1, o_2, o_z)
                 ref2 = two_stage(U, wvl, d1, d2, z, n)
                 if not numpy.isfinite(two).all():
@@ -248,6 +308,55 @@ def oracle(chk, quick):
                     else:
                         chk.fail("fresnel-sum:twoStepFresnel" + (":odd" if n % 2 else ""), "twoStepFresnel ≠ the two chained Fresnel sums: rel err %.3g (N=%d wvl=%g d1=%g d2=%g z=%g)"
                                  % (e, n, wvl, d1, d2, z), rpm)
+
+    # ---- round 5: HISTORIES.  One process, one sampling, one caller array: every call of a sequence in which exactly one of (z, sign of z, wvl,
+    # d1, d2, both spacings, the field, N) changes between consecutive calls — returning to the first geometry in between — is compared with
+    # its direct sum.  Whatever a propagator remembers between calls (plane grids, transfer functions, chirps, results) must be keyed on all of
+    # its arguments and on the field's CONTENTS; all four quadrants (sign z) x (m < 1, m > 1) of the two-step reflection occur in each sequence.
+    wvl, d1, z = c10.geometry(rng, 8)
+    m = rng.choice([0.5, 0.75, 1.5, 2.0])
+    for n in ([6, 7, 8, 6] if quick else [4, 5, 6, 7, 8, 9, 16, 6, 13, 5]):
+        Uin = c10.rand_field(nprng, n, rng.choice(["delta", "gauss", "blob"]))
+        V = c10.rand_field(nprng, n, "gauss")
+        base = (wvl, d1, m * d1, z)
+        seq = [("first call", base), ("z scaled by 2.5", (wvl, d1, m * d1, 2.5 * z)), ("back to the first geometry", base),
+               ("sign of z flipped", (wvl, d1, m * d1, -z)), ("back to the first geometry", base),
+               ("wavelength doubled", (2 * wvl, d1, m * d1, z)), ("back to the first geometry", base),
+               ("input spacing doubled, output spacing kept", (wvl, 2 * d1, m * d1, z)), ("back to the first geometry", base),
+               ("output spacing changed to d1/m", (wvl, d1, d1 / m, z)), ("sign of z flipped at magnification 1/m", (wvl, d1, d1 / m, -z)),
+               ("back to the first geometry", base), ("unit magnification", (wvl, d1, d1, z)), ("back to the first geometry", base),
+               ("both spacings doubled", (wvl, 2 * d1, 2 * m * d1, z)), ("back to the first geometry", base)]
+        for step, (what, g) in enumerate(seq):
+            if step == len(seq) - 2:
+                Uin[...] = V                                  # the SAME array object refilled with another field, then the first geometry again
+                what += ", caller's array refilled with another field"
+            chk.oracle_cases += 1
+            chk.case(("history", n, step) + g)
+            chk.count("history:N=%d" % n)
+            exact_all(chk, op, n, Uin, Uin.copy(), g[0], g[1], g[2], g[3], dict(seed=chk.seed, step=step, U=c10._small(Uin)),
+                      "call %d of a history on one grid (%s)" % (step + 1, what))
+    # a program with more steps than any small cache or ring buffer is long: 150 angularSpectrum steps (distinct distances, a few of them
+    # repeated non-consecutively) whose distances sum to z, against one step over z
+    for n in ([8, 9] if quick else [4, 8, 9, 16, 33]):
+        wvl, d1, z = c10.geometry(rng, n)
+        U = c10.rand_field(nprng, n, rng.choice(["gauss", "blob", "delta"]))
+        ks = 150
+        w = [rng.uniform(0.5, 1.5) for _ in range(ks - 1)]
+        for j in range(10, ks - 1, 17):
+            w[j] = w[j % 5]                                   # one of the first five distances again, after many other calls
+        steps = [z * 0.9 * wj / sum(w) for wj in w]
+        steps.append(z - sum(steps))
+        chk.oracle_cases += 1
+        chk.case(("long-program", n, wvl, d1, z))
+        chk.count("group:long-program")
+        prog = U
+        for st in steps:
+            prog = quiet(op.angularSpectrum, prog, wvl, d1, d1, st)
+        whole = quiet(op.angularSpectrum, U, wvl, d1, d1, z)
+        e = c10.obs(chk, "long-program[tol %g]" % LONG_TOL, float(numpy.abs(prog - whole).max()) / float(numpy.abs(U).max()))
+        if not e <= LONG_TOL:
+            chk.fail("group:as_program", "a program of %d angularSpectrum steps with total %g ≠ one step over the total: err %.3g (N=%d wvl=%g d1=%g)"
+                     % (ks, z, e, n, wvl, d1), dict(N=n, wvl=wvl, d1=d1, z=z, steps=steps, seed=chk.seed, U=c10._small(U)))
 
     # ---- cross-propagator agreement on matching grids, asymmetric off-centre resolved beam (numeric: discretisation bound)
     for n in ([64, 65] if quick else [64, 65, 128, 129]):
@@ -289,8 +398,8 @@ def oracle(chk, quick):
 
     # ---- analytic Gaussian beam: width, curvature, Gouy phase (numeric: aliasing bound); the waist scales with the grid so that the beam
     # stays resolved (w0 >= 3.4 samples) and contained (edge at >= 5.5 w(z))
-    for n in ([65, 128, 129] if quick else [65, 96, 128, 129, 255, 256]):
-        for rep in range(3 if quick else 10):
+    for n in ([65, 128, 129, 256, 512] if quick else [65, 96, 128, 129, 255, 256, 260, 512, 1024]):     # round 5: grids beyond 2^16 / 2^18 elements
+        for rep in range((3 if n < 200 else 1) if quick else (10 if n < 500 else 3)):
             wvl, d1 = 1e-6, 1e-3 * rng.choice([1.0, 0.5])
             w0 = rng.uniform(6.8, 8.6) * d1 * min(n, 128) / 128.0
             zR = math.pi * w0 * w0 / wvl
@@ -403,8 +512,12 @@ def run(chk):
                 "against the direct centred Fresnel sums on the grid +(a-N//2)d2, N in {2,4,5,6,7,8,16,33} (thorough ..65), m in menu/1/free/1±2^-k (rel err <= 1e-9, "
                 "1e-8 for N>=32); angularSpectrum = twoStepFresnel for an asymmetric off-centre Gaussian on N=64,65 (thorough 128,129) to 1e-9 after the known "
                 "constant phase; angularSpectrum vs oneStepFresnel 2e-5; analytic Gaussian beam incl. curvature and Gouy phase on N=65,128,129 (rel 1e-9; "
-                "magnified 1e-7, N>=96); Airy amplitude of an off-centre elliptical aperture on N=128,129 (5e-3 of the peak); distinct = distinct (family, N, "
-                "geometry, data kind, field class, scalar kinds)")
+                "magnified 1e-7, N>=96); Airy amplitude of an off-centre elliptical aperture on N=128,129 (5e-3 of the peak); round 5: N = 1, 13, 26 and "
+                "256 (group laws and Gaussian beam also 512) everywhere, the C10 storage classes of the field (single-precision fields held to the "
+                "double-precision bound for all but lensAgainst), one third of the direct-sum geometries re-expressed in units of 1e-6..1e6 m, return trips "
+                "at m = 0.1 and 1±2^-9..-30, angularSpectrum against its direct sum at m = 1±2^-12..-30, zero distance typed float32 / int64 / int32, "
+                "16-call histories on one grid and one caller array (z scaled, sign of z, wvl, d1, d2, 1/m, m = 1, both spacings, field refilled, N) with every "
+                "call against its direct sum, a 150-step program; distinct = distinct (family, N, geometry, data kind, field class, scalar kinds)")
     chk.assumptions = ["numpy.fft kernels = naive DFT sums (contract checked numerically each run)",
                        "binary64 rounding is not modelled: the theorems are about exact complex arithmetic",
                        "single-precision inputs (numpy.float32 scalars, complex64 fields) are only compared to single-precision accuracy",
